@@ -80,11 +80,12 @@ VStart(c, len) ==
 \*         replayed  a finish box recorded from the legitimate controller's exchange
 \*         unknown   names nobody stored
 \*         self      names the accessory's own id (which IS an entity in the database, hap/device.go:25-36)
+\*         reflect   names the accessory's own id and echoes the accessory's own signature from its start response
 \*         badseal   box under a wrong key          short  box shorter than a tag     badtlv  garbage inside a good box
-NeedsSecret(kind) == kind \in {"genuine", "wrongkey", "stale", "reordered", "unknown", "self", "badtlv"}
+NeedsSecret(kind) == kind \in {"genuine", "wrongkey", "stale", "reordered", "unknown", "self", "reflect", "badtlv"}
 SignatureValid(c, kind) == kind = "genuine" /\ c \in LegitConn /\ legitPaired
 NameKnown(c, kind) == \/ kind \in {"genuine", "wrongkey", "stale", "reordered"} /\ legitPaired
-                      \/ kind = "self"
+                      \/ kind \in {"self", "reflect"}
 
 VFinish(c, kind) ==
   /\ Plain(c) /\ kind \in FinishKinds
